@@ -408,7 +408,7 @@ def interleave_rules(ctx, rep):
     for bb, i in se2.term_info.items():
         if i.get("k") == "call" and i["name"] == fn:
             Sv = strip(i["term"])
-    if Sv is None or len(loops) not in (2, 3):
+    if Sv is None or len(loops) not in (2, 3, 4):
         rep.violation("interleave", fn2, "shape", "expected the stripped secret and the even/odd split + interleave loops, found %d loops" % len(loops), b2.loc())
         return
     rep.check(canon(ctx, se2, Sv[2][0]) == ("param", 1), "interleave", fn2, "source", "the stripped secret of the parameter is interleaved", "as_equal_slice is not applied to the parameter")
